@@ -514,12 +514,9 @@ pub struct ItemCfg<const L: usize> {
 
 impl<const L: usize> ItemCfg<L> {
     pub fn builder(&self) -> SdesItemBuilder<'_> {
-        let b = SdesItem::builder(self.type_, self.value.as_str());
-        if self.type_ == PRIV {
-            b.prefix(self.prefix.as_bytes())
-        } else {
-            b
-        }
+        // `prefix()` is documented to have no effect on a non-PRIV item: it is always called,
+        // so that a stray prefix is part of every SDES configuration the harnesses explore
+        SdesItem::builder(self.type_, self.value.as_str()).prefix(self.prefix.as_bytes())
     }
     #[inline(always)]
     pub fn is_priv(&self) -> bool {
